@@ -127,7 +127,12 @@ pub fn run(ctx: &Ctx) -> i32 {
     for (hn, host) in &hosts {
     let horig = bind::observe(host);
     let horig = if let O::Node(..) = horig { horig } else { O::Node([0; 32], Box::new(horig), vec![]) };
-    let variants: Vec<(&str, Envelope)> = vec![("plain", pa.clone()), ("elided", pa.elide()), ("compressed", pa.compress().unwrap()), ("encrypted", bind::obscure_whole(&pa, crate::refmodel::tree::Kind::Encrypted)), ("big-object", Envelope::new_assertion("sp", "x".repeat(1000)))];
+    let variants: Vec<(&str, Envelope)> = vec![("plain", pa.clone()), ("elided", pa.elide()), ("compressed", pa.compress().unwrap()), ("encrypted", bind::obscure_whole(&pa, crate::refmodel::tree::Kind::Encrypted)), ("big-object", Envelope::new_assertion("sp", "x".repeat(1000))),
+        // an assertion that already carries an assertion of its own, and the same with only its own subject (the assertion proper) obscured
+        ("decorated", pa.add_assertion("note", "n")),
+        ("decorated-compressed-subject", pa.add_assertion("note", "n").compress_subject().unwrap()),
+        ("decorated-elided-subject", { let d = pa.add_assertion("note", "n"); d.elide_removing_target(&d.subject()) }),
+        ("decorated-encrypted-subject", pa.add_assertion("note", "n").encrypt_subject_opt(&bind::key0(), Some(bind::nonce0())).unwrap())];
     for (vn, a) in &variants {
         let mut digests: HashSet<[u8; 32]> = HashSet::new();
         let reps = 16;
